@@ -128,6 +128,43 @@ func edit(r *vh.Rand, t *tree, exotic bool) {
 	}
 }
 
+// dupPair copies a child that differs between a and b (at the root or below a common directory path) to a
+// second, unused name on both sides.
+func dupPair(r *vh.Rand, a, b *tree) {
+	for depth := 0; depth < 4; depth++ {
+		if a.raw() || b.raw() {
+			return
+		}
+		var differing, common []int
+		for _, n := range a.names() {
+			if kb, ok := b.kids[n]; ok && n < 9000 {
+				common = append(common, n)
+				if !a.kids[n].equal(kb) {
+					differing = append(differing, n)
+				}
+			}
+		}
+		if len(differing) > 0 && (r.Chance(2, 3) || len(common) == 0) {
+			n := differing[r.Intn(len(differing))]
+			for try := 0; try < 6; try++ {
+				m := r.Intn(9)
+				_, ina := a.kids[m]
+				_, inb := b.kids[m]
+				if !ina && !inb {
+					a.kids[m], b.kids[m] = a.kids[n].clone(), b.kids[n].clone()
+					return
+				}
+			}
+			return
+		}
+		if len(common) == 0 {
+			return
+		}
+		n := common[r.Intn(len(common))]
+		a, b = a.kids[n], b.kids[n]
+	}
+}
+
 func gen(r *vh.Rand, tier string, n int, emit func(vh.Case)) {
 	for i := 0; i < n; i++ {
 		cr := r.Fork()
@@ -148,6 +185,14 @@ func gen(r *vh.Rand, tier string, n int, emit func(vh.Case)) {
 			}
 			if cr.Chance(1, 12) {
 				b = a.clone()
+			}
+			if cr.Chance(1, 3) {
+				// the same (old subtree, new subtree) pair under two or more link names: the same file content under
+				// two names replaced by the same new content, identical directory copies receiving the same edits
+				dupPair(cr, a, b)
+				if cr.Chance(1, 3) {
+					dupPair(cr, a, b)
+				}
 			}
 			if cr.Chance(1, 25) {
 				// a link whose name path.Join / strings.Split cannot carry, added or changed below a directory
